@@ -858,7 +858,7 @@ def err_class(msg):
         m = m[hits[-1].end():]
     m = re.sub(r"\\u0022.*?\\u0022|\"[^\"]*\"|'[^']*'", "", m)
     m = re.sub(r"[^A-Za-z ]+", " ", m)
-    return " ".join(m.split()[:6])
+    return " ".join(m.split()[:3])
 
 
 def judge(F, v, cls, reason, outcome):
@@ -928,20 +928,36 @@ def measure(v):
         n += 1
         if isinstance(x, Str):
             s += len(x.b)
-            rank += sum(_rank(ch) for ch in x.b)
+            rank += 1 + sum(_rank(ch) for ch in x.b)
         elif isinstance(x, (int, Big)) and not isinstance(x, bool):
             rank += min(abs(V.ival(x)), 10 ** 6)
+        elif not isinstance(x, (list, Obj)):
+            rank += 10
     return (n, s, rank)
 
 
 def str_candidates(s):
-    """delete one character; replace a character by '1', by 'a', a tab by a blank"""
+    """delete chunks (halves, quarters, ... single characters); replace a character by '1',
+    by 'a', a tab by a blank (long strings: all characters at once)"""
     try:
         t = s.b.decode("utf-8")
     except UnicodeDecodeError:
         return
-    for i in range(len(t)):
+    n = len(t)
+    c = n // 2
+    while c > 1:
+        starts = list(range(0, n, c))
+        if len(starts) > 8:
+            starts = starts[:4] + starts[-4:]
+        for i in starts:
+            yield S(t[:i] + t[i + c:])
+        c //= 2
+    for i in range(n):
         yield S(t[:i] + t[i + 1:])
+    if n > 64:
+        yield S("1" * n)
+        yield S("a" * n)
+        return
     for i, ch in enumerate(t):
         if ch == "\t":
             yield S(t[:i] + " " + t[i + 1:])
@@ -962,6 +978,8 @@ def sub_candidates(F, v):
         for i in range(len(v)):
             yield v[:i] + v[i + 1:]
         for i, x in enumerate(v):
+            if not isinstance(x, (list, Obj)):
+                yield v[:i] + [0] + v[i + 1:]
             for y in sub_candidates(F, x):
                 yield v[:i] + [y] + v[i + 1:]
     elif isinstance(v, Obj):
@@ -973,6 +991,8 @@ def sub_candidates(F, v):
         for i in range(len(v.items)):
             yield Obj(v.items[:i] + v.items[i + 1:])
         for i, (k, x) in enumerate(v.items):
+            if not isinstance(x, (list, Obj)):
+                yield Obj(v.items[:i] + [(k, 0)] + v.items[i + 1:])
             for y in sub_candidates(F, x):
                 yield Obj(v.items[:i] + [(k, y)] + v.items[i + 1:])
             for y in sub_candidates(F, k):
@@ -985,7 +1005,7 @@ def sub_candidates(F, v):
             yield Str(v.b[:i] + v.b[i + 1:], False)
 
 
-def minimise(F, v, first_failing, budget=800):
+def minimise(F, v, first_failing, budget=2500):
     """greedy descent; first_failing(candidates) re-executes the real implementation on a batch
     and returns the index of the first candidate that still fails in the same way (or None)"""
     cur = v
@@ -1019,16 +1039,34 @@ def minimise(F, v, first_failing, budget=800):
     return cur
 
 
+def compact(x):
+    """rendering of an atom for a key: long strings as "c"*N or prefix + length + digest"""
+    if isinstance(x, Str) and x.text and valid_text(x):
+        t = x.b.decode("utf-8")
+        if len(t) > 48:
+            if len(set(t)) == 1:
+                return "%s*%d" % (json.dumps(t[0]), len(t))
+            return "%s...(%d chars, md5 %s)" % (json.dumps(t[:16]), len(t), hashlib.md5(x.b).hexdigest()[:8])
+        return json.dumps(t)
+    return show(x, 60)
+
+
 def canonical(F, what, v):
     """key for a minimised failing value: the single interesting atom if there is one"""
     leaves = [x for x in walk(v) if not isinstance(x, (list, Obj))]
     interesting = [x for x in leaves if not (x == 0 and not isinstance(x, bool) and not isinstance(x, float))
-                   and x != S("k") and x != S("a")] or leaves
-    if len({freeze(x) for x in interesting}) == 1:
-        x = interesting[0]
+                   and x != S("k") and x != S("a") and x != S("1")] or leaves
+    uniq = []
+    for x in interesting:
+        if not any(freeze(x) == freeze(y) for y in uniq):
+            uniq.append(x)
+    if len(uniq) == 1:
+        x = uniq[0]
         if isinstance(x, Str) and x.text and valid_text(x):
-            return "%s:%s:string:%s" % (F, what, json.dumps(x.b.decode("utf-8")))
+            return "%s:%s:string:%s" % (F, what, compact(x))
         return "%s:%s:%s:%s" % (F, what, rep(x), show(x, 120))
+    if len(uniq) <= 4:
+        return "%s:%s:atoms:%s" % (F, what, ",".join(compact(x) for x in uniq))
     return "%s:%s:value:%s" % (F, what, show(v, 160))
 
 
@@ -1097,7 +1135,7 @@ def value_task(t):
                         st["consumers"][consumer] = st["consumers"].get(consumer, 0) + 1
                     if bad:
                         fails.append({"format": F, "path": path, "code": bad[0], "detail": bad[1], "value": enc(v),
-                                      "cls": cls, "reason": reason, "written": (o[1] or b"")[:400].hex()})
+                                      "cls": cls, "reason": reason, "part": part, "size": measure(v)})
                     elif cls == "reject":
                         st["rejected_ok"] += 1
                     elif cls == "loose":
@@ -1111,6 +1149,19 @@ def value_task(t):
                     st["cli_pick"].append((enc(v), cls, reason))
     except WorkerDied as e:
         st["inconc"].append(classify_death(e))
+    if part != "pool":
+        # random trees: per failure class keep the 12 smallest and 12 random witnesses of this task
+        by = {}
+        for f in fails:
+            by.setdefault(f["code"], []).append(f)
+        keep = []
+        for code in sorted(by):
+            fs = sorted(by[code], key=lambda f: (f["size"], 0 if f["path"] != "filter" else 1))
+            rest = fs[12:]
+            rng.shuffle(rest)
+            keep += fs[:12] + rest[:12]
+            st["failures_dropped"] = st.get("failures_dropped", 0) + max(0, len(rest) - 12)
+        st["failures"] = keep
     st["digests"] = list(st["digests"])
     return st
 
@@ -2004,21 +2055,50 @@ def dispatch(t):
     return value_task(t)
 
 
-def group_failures(fails):
-    """one representative per (format, failure class, interesting atoms): the smallest, filter path first"""
+def group_failures(fails, rng):
+    """representatives to minimise. Pool values: one per (format, failure class, set of atoms) -
+    the smallest, library path first. Random trees: the same, but per failure class at most the
+    150 smallest and 150 seeded-random groups. Generated XML documents: per failure class the 8
+    smallest and 8 seeded-random ones. The rest fails in an already minimised class: counted."""
     groups = {}
+    xml_classes = {}
     for f in fails:
         if f["format"] == "xml":
-            k = ("xml", f["code"], f["origin"] if f["origin"].startswith("mutation") else f["doc"])
-            size = (len(f["doc"]), 0 if f["path"] == "filter" else 1)
+            size = (len(f["doc"]), 1 if f["path"] == "filter" else 0)
+            if f["origin"] == "generated":
+                cur = xml_classes.setdefault(f["code"], {}).get(f["doc"])
+                if cur is None or size < cur[0]:
+                    xml_classes[f["code"]][f["doc"]] = (size, f)
+                continue
+            k = ("xml", f["code"], f["origin"])
         else:
             v = dec(f["value"])
             leaves = sorted({repr(freeze(x)) for x in walk(v) if not isinstance(x, (list, Obj)) and x != 0 and x != S("k") and x != S("a")})
             k = (f["format"], f["code"], f["reason"], tuple(leaves))
-            size = measure(v) + (1 if f["path"] == "filter" else 0,)
+            size = tuple(f["size"]) + (1 if f["path"] == "filter" else 0,)
         if k not in groups or size < groups[k][0]:
             groups[k] = (size, f)
-    return [f for _s, f in groups.values()]
+    reps = []
+    skipped = 0
+    rand_classes = {}
+    for k, (size, f) in groups.items():
+        if f.get("part") == "rand":
+            rand_classes.setdefault((f["format"], f["code"]), []).append((size, json.dumps(f["value"]), f))
+        else:
+            reps.append(f)
+    for k in sorted(rand_classes):
+        items = sorted(rand_classes[k], key=lambda t: t[:2])
+        rest = items[150:]
+        rng.shuffle(rest)
+        reps += [f for _s, _j, f in items[:150] + rest[:150]]
+        skipped += max(0, len(rest) - 150)
+    for code, docs in sorted(xml_classes.items()):
+        items = sorted(docs.values(), key=lambda sf: (sf[0], sf[1]["doc"]))
+        rest = items[8:]
+        rng.shuffle(rest)
+        reps += [f for _s, f in items[:8] + rest[:8]]
+        skipped += max(0, len(rest) - 8)
+    return reps, skipped
 
 
 def replay(run):
@@ -2067,18 +2147,18 @@ def main():
     quick = run.tier == "quick"
     tasks = []
     nparts = {"yaml": 32, "cbor": 4, "toml": 4, "csv": 4, "tsv": 4}
-    nrand = {"yaml": run.size(12000, 400000), "cbor": run.size(12000, 300000), "toml": run.size(10000, 250000),
-             "csv": run.size(8000, 200000), "tsv": run.size(8000, 200000)}
+    nrand = {"yaml": run.size(8000, 400000), "cbor": run.size(8000, 300000), "toml": run.size(6000, 250000),
+             "csv": run.size(5000, 200000), "tsv": run.size(5000, 200000)}
     for F in VALUE_FORMATS:
         for i in range(nparts[F]):
             tasks.append((F, "pool", i, run.seed, 0, nparts[F]))
         chunk = 1000 if quick else 5000
         for i in range((nrand[F] + chunk - 1) // chunk):
             tasks.append((F, "rand", i, run.seed, chunk, 0))
-    nxml = run.size(3000, 60000)
+    nxml = run.size(2000, 60000)
     for i in range((nxml + 249) // 250):
         tasks.append(("xml", "gen", i, run.seed, 250, 0))
-    nmut = run.size(600, 6000)
+    nmut = run.size(300, 6000)
     for i in range((nmut + 59) // 60):
         tasks.append(("xml", "mut", i, run.seed, 60, 0))
     # big pool parts first
@@ -2089,6 +2169,7 @@ def main():
     t_phase = time.time()
     per = {}
     fails = []
+    dropped = 0
     distinct = Distinct()
     samples = Samples(10, run.rng("samples"))
     cli_items = {}
@@ -2116,6 +2197,7 @@ def main():
                     xml_obs.setdefault(k, [])
                     xml_obs[k] = (xml_obs[k] + x)[:3]
         fails += st["failures"]
+        dropped += st.get("failures_dropped", 0)
         for cls in st["inconc"]:
             run.inconc(cls)
         distinct.update(st["digests"])
@@ -2126,7 +2208,7 @@ def main():
     phases["round_trips"] = round(time.time() - t_phase, 1)
     t_phase = time.time()
     # ---- minimise failures, report under canonical keys
-    reps = group_failures(fails)
+    reps, not_minimised = group_failures(fails, run.rng("groups"))
     shrunk = 0
     for key, wit, unstable in par.pmap(dispatch, [("shrink", f) for f in reps], run.jobs):
         shrunk += 1
@@ -2140,8 +2222,8 @@ def main():
     t_phase = time.time()
     # ---- the real CLI on a sample
     rng = run.rng("cli")
-    ncli = {"yaml": run.size(120, 3000), "cbor": run.size(80, 2000), "toml": run.size(80, 2000), "csv": run.size(80, 2000),
-            "tsv": run.size(80, 2000), "xml": run.size(60, 1200)}
+    ncli = {"yaml": run.size(80, 3000), "cbor": run.size(50, 2000), "toml": run.size(50, 2000), "csv": run.size(50, 2000),
+            "tsv": run.size(50, 2000), "xml": run.size(40, 1200)}
     ctasks = []
     for F, items in sorted(cli_items.items()):
         items.sort(key=lambda it: json.dumps(it[0]) if not isinstance(it[0], str) else it[0])
@@ -2150,8 +2232,8 @@ def main():
         rej = [it for it in items if it[1] == "reject"][:max(10, ncli[F] // 10)]
         rest = [it for it in items if it[1] != "reject"][:ncli[F]]
         pick = rej + rest
-        for lo in range(0, len(pick), 25):
-            ctasks.append(("cli", F, pick[lo:lo + 25], jaq))
+        for lo in range(0, len(pick), 10):
+            ctasks.append(("cli", F, pick[lo:lo + 10], jaq))
     cli = {}
     for st in par.pmap(dispatch, ctasks, run.jobs):
         d = cli.setdefault(st["format"], {"values": 0, "process_spawns": 0, "agree_with_library_path": 0,
@@ -2210,6 +2292,7 @@ def main():
         "phase_wall_s": phases,
         "failures_seen_before_grouping": len(fails),
         "failure_groups_minimised": shrunk,
+        "failing_cases_not_minimised_because_their_failure_class_already_was": not_minimised + dropped,
         "yaml_independent_reader": "none available in this sandbox (no PyYAML/ruamel): well-formedness of jaq's YAML is judged "
                                    "only by jaq's own reader",
     }, assumptions=[
